@@ -70,8 +70,9 @@ Definition or_default (known : option str) : str :=
   | None => utf8
   end.
 
-(* dec_ignore = bytes.decode("utf-8", "ignore") *)
-Definition decide (dec_ignore : list N -> str) (text : input) (known : option str) : outcome :=
+(* dec_ignore = bytes.decode("utf-8", "ignore");  names_utf8 n = (codecs.lookup(n).name == "utf-8"), false for unknown names:
+   the codec registry's answer to "is this another spelling of utf-8" (UTF-8, utf8, utf_8, ...; since fix 3c3c073) *)
+Definition decide (dec_ignore : list N -> str) (names_utf8 : str -> bool) (text : input) (known : option str) : outcome :=
   match text with
   | IStr t =>
       match coding_match t with
@@ -82,7 +83,7 @@ Definition decide (dec_ignore : list N -> str) (text : input) (known : option st
       match strip_prefix BOM b with
       | Some payload =>
           match coding_match (dec_ignore payload) with
-          | Some (name, _) => if str_eqb name utf8 then OBytes utf8 payload else OBomConflict name
+          | Some (name, _) => if names_utf8 name then OBytes utf8 payload else OBomConflict name
           | None => OBytes utf8 payload
           end
       | None =>
@@ -105,7 +106,7 @@ Definition finish (dec : str -> list N -> option str) (o : outcome) : result :=
   | OBomConflict _ => RCompileError
   end.
 
-Definition decode_raw_stream dec_ignore dec text known : result := finish dec (decide dec_ignore text known).
+Definition decode_raw_stream dec_ignore names_utf8 dec text known : result := finish dec (decide dec_ignore names_utf8 text known).
 
 (* ---- output ------------------------------------------------------------------------------------ *)
 (* FastEncodingBuffer.getvalue: the written pieces joined, encoded when the buffer has an encoding;
